@@ -14,7 +14,8 @@ Open Scope R_scope.
    area's own index function (masked_ints model: not masked, 0 <= col < width, 0 <= row < height); unless the x extent
    is the global one it lies strictly inside and its canonical floor cell is a valid pixel too.
    The point's x coordinate in the frozen CRS is x - pm + 360 k (pm = 180 iff +pm=180 was put into the CRS; k = 0 and
-   pm = 0 for every non-geographic CRS).
+   pm = 0 for every non-geographic CRS); in closed form it is [frozen_x]: x itself, x % 360 in the wrapped modes, x % 360 - 180
+   for modify_crs (H_pm: this is how PROJ places a longitude in the +pm=180 CRS; validated on the implementation by the harness).
    Hypotheses: extent/size not given explicitly (else see C14_explicit_kept); at least one valid point, all <= 9e29;
    requested resolution > 0; requested shape >= 1 x 1; H_aou: the CRS area of use has west < east and, when
    global_extents is selected, contains the longitudes PROJ returned. *)
@@ -29,7 +30,8 @@ Theorem C14_freeze_contains_points : forall d fres fshape geo mode aou pts fr,
   forall p, In p pts -> exists x' (k : Z),
     x' = fst p - (if f_pm180 fr then 180 else 0) + 360 * IZR k /\ (geo = false -> x' = fst p) /\
     inside (f_area fr) x' (snd p) /\
-    (~ (geo = true /\ mode = MGlobal) -> strictly_inside (f_area fr) x' (snd p)).
+    (~ (geo = true /\ mode = MGlobal) -> strictly_inside (f_area fr) x' (snd p)) /\
+    x' = frozen_x geo mode pts (fst p).
 Proof. exact freeze_contains_points. Qed.
 Print Assumptions C14_freeze_contains_points.
 
@@ -152,14 +154,60 @@ Theorem C14_antimeridian_modes : forall geo mode pts, valid_pts pts ->
      y0 <= y1 /\ (forall p, In p pts -> y0 <= snd p <= y1) /\
      match xc with
      | Some (a, b) => a <= b /\ forall p, In p pts -> exists x' (k : Z),
-           x' = fst p - (if pm then 180 else 0) + 360 * IZR k /\ a <= x' <= b /\ (geo = false -> x' = fst p)
+           x' = fst p - (if pm then 180 else 0) + 360 * IZR k /\ a <= x' <= b /\ (geo = false -> x' = fst p) /\
+           x' = frozen_x geo mode pts (fst p)
      | None => geo = true /\ mode = MGlobal /\ pm = false
-     end /\ (geo = false -> pm = false)).
+     end /\ (geo = false -> pm = false) /\
+     pm = (antimeridian_branch geo pts && match mode with MCrs => true | _ => false end)).
 Proof.
   intros geo mode pts Hv. split; [exact (bound_centers_modes geo mode pts Hv)|].
   intros pm xc y0 y1. apply bound_centers_spec, Hv.
 Qed.
 Print Assumptions C14_antimeridian_modes.
+(* +pm=180 is put into the CRS exactly when the antimeridian branch is taken with mode modify_crs *)
+Theorem C14_pm180_iff : forall d fres fshape geo mode aou pts fr,
+  explicit_area d fshape = None -> valid_pts pts ->
+  freeze RO wrapR d fres fshape geo mode aou pts = Some fr ->
+  f_pm180 fr = (antimeridian_branch geo pts && match mode with MCrs => true | _ => false end).
+Proof. exact freeze_pm180_iff. Qed.
+Print Assumptions C14_pm180_iff.
+
+(* The regenerated pieces of _compute_bound_centers / _compute_new_x_corners_for_antimeridian equal their clean forms in EVERY
+   arithmetic (so also in binary64): the guard of the antimeridian branch, the three-mode corner computation, the 1e30 filter. *)
+Theorem C14_bound_centers_pieces : forall (T : Type) (OP : ops T) (wrap360 : T -> T),
+  (forall xmin xmax ymin ymax geo, gen_am_test OP xmin xmax ymin ymax (mk_crs geo) =
+      geo && passes_antimeridian OP xmin xmax && negb (y_is_pole OP ymin ymax)) /\
+  (forall mode xs, new_x_corners OP wrap360 mode xs =
+      match mode with
+      | MGlobal => None
+      | MCrs => Some (sub OP (nanmin OP (map wrap360 xs)) (ofZ OP 180), sub OP (nanmax OP (map wrap360 xs)) (ofZ OP 180))
+      | _ => Some (nanmin OP (map wrap360 xs), nanmax OP (map wrap360 xs))
+      end) /\
+  (forall p, clean_xy OP p = (clean OP (fst p), clean OP (snd p))).
+Proof.
+  intros T OP w. split; [intros; apply gen_am_test_char|]. split; [intros; apply new_x_corners_char | intros; apply clean_xy_char].
+Qed.
+Print Assumptions C14_bound_centers_pieces.
+
+(* optimize_projection=True (SwathDefinition.compute_optimal_bb_area): whatever projection parameters and uniform shape
+   (h, w >= 1) PROJ / Geod deliver, the area frozen on ALL positions of the swath has that shape and contains every valid
+   position strictly (repaired in /repo by the second `fix:` commit for C14: it used to be frozen on the edge positions only). *)
+Theorem C14_optimize_projection_contains : forall h w geo aou pts fr,
+  (1 <= h)%Z -> (1 <= w)%Z -> valid_pts pts -> aou_west aou < aou_east aou ->
+  optimal_bb_area RO wrapR h w geo aou pts = Some fr ->
+  pos_area (f_area fr) /\ width (f_area fr) = w /\ height (f_area fr) = h /\
+  forall p, In p pts -> exists x',
+    x' = frozen_x geo MNone pts (fst p) /\ (geo = false -> x' = fst p) /\
+    strictly_inside (f_area fr) x' (snd p) /\ inside (f_area fr) x' (snd p).
+Proof. exact optimal_bb_area_contains. Qed.
+Print Assumptions C14_optimize_projection_contains.
+Example C14_optimize_ex : (1 <= 7)%Z /\ (1 <= 45)%Z /\ valid_pts ex_pts /\ aou_west ex_aou < aou_east ex_aou /\
+  exists e, cd_shape_clean 1 1 9 9 45 7 = Some (e, 45%Z, 7%Z).
+Proof.
+  split; [lia|]. split; [lia|]. split; [exact ex_valid|]. split; [cbn; lra|].
+  destruct (cd_shape_some 1 1 9 9 45 7 ltac:(lra) ltac:(lra) ltac:(left; lra)) as (rx & ry & _ & _ & E & _). eexists; exact E.
+Qed.
+
 (* x % 360 over the reals: in [0, 360) and congruent to x *)
 Theorem C14_wrap360 : forall x, 0 <= wrapR x < 360 /\ exists k : Z, wrapR x = x + 360 * IZR k.
 Proof. intros x. split; [apply wrapR_range | apply wrapR_shift]. Qed.
